@@ -98,22 +98,22 @@ theorem generateParse_line_y (r : PState) (rangeT lhs tyT rhs T : List Nat) (a b
 /-- a `$GENERATE` line whose header parse is known: what it does to the zone is the fold of `txn.add` over the records
 of its indices, and the reader goes on after the line -/
 theorem readLoop_generate_of_parse (f : Nat) (r r1 : PState) (z : ZoneMap) (H rest : List Nat) (ttl ty : Nat)
-    (items : List (List Nat × List Nat)) (e : List Nat × List Nat → Entry) (nOf : List Nat × List Nat → Name)
+    (items : List (List Nat × List Nat)) (e : List Nat × List Nat → Option Entry) (nOf : List Nat × List Nat → Name)
     (hH : startsDelim H) (htok : r.tok = after 0 false (s2l "$GENERATE" ++ H))
     (hparse : generateParse { r with tok := after 0 false H } = .ok (⟨ttl, ty, items⟩, r1))
     (htok1 : r1.tok = after 0 false (10 :: rest))
     (hitems : ∀ item ∈ items, ∀ ln, genItem ttl ty item { r1 with lastName := ln } =
-        .ok (some (e item), { r1 with lastName := some (nOf item) })) :
+        .ok (e item, { r1 with lastName := some (nOf item) })) :
     readLoop (f + 2) r z =
-      (addAll r1.effOrigin z (items.map e)).bind fun z' =>
+      (addAll r1.effOrigin z (items.filterMap e)).bind fun z' =>
         readLoop f { r1 with tok := after 0 false rest, lastName := lastNameAfter nOf r1.lastName items } z' := by
   have hdir := lineStep_generate_dir r H hH htok
   have hloop := generateLoop_records ttl ty items r1 e nOf hitems z
   simp only [readLoop, readStep, bind, Except.bind, hdir, generateLine, hparse, hloop]
-  cases hadd : addAll r1.effOrigin z (items.map e) with
+  cases hadd : addAll r1.effOrigin z (items.filterMap e) with
   | error err => rfl
   | ok z' =>
-    simp only [Except.map, Bool.false_eq_true, if_false, pure, Except.pure]
+    simp only [Except.map, pure, Except.pure]
     have heol := lineStep_eol { r1 with lastName := lastNameAfter nOf r1.lastName items } rest htok1
     simp only [heol]
 
@@ -164,7 +164,7 @@ theorem readLoop_prefix_inherit (ls : List GLine) (rest : List Nat) (r : PState)
 /-! ## `$GENERATE` without a TTL field versus its TTL-less expansion -/
 
 theorem generate_eq_lines_inherit (f : Nat) (r : PState) (z : ZoneMap) (co zo : Name) (H rest : List Nat) (ttl ty : Nat)
-    (items : List (List Nat × List Nat)) (e : List Nat × List Nat → Entry) (nOf : List Nat × List Nat → Name)
+    (items : List (List Nat × List Nat)) (e : List Nat × List Nat → Option Entry) (nOf : List Nat × List Nat → Name)
     (ls : List GLine)
     (hco : r.currentOrigin = some co) (hzo : r.zoneOrigin = some zo) (hH : startsDelim H)
     (hparse : generateParse { r with tok := after 0 false H } =
@@ -172,8 +172,8 @@ theorem generate_eq_lines_inherit (f : Nat) (r : PState) (z : ZoneMap) (co zo : 
     (hinh : r.inheritedTTL = some ttl)
     (hitems : ∀ item ∈ items, ∀ ln,
       genItem ttl ty item { r with tok := after 0 false (10 :: rest), lastName := ln } =
-        .ok (some (e item), { r with tok := after 0 false (10 :: rest), lastName := some (nOf item) }))
-    (hls : ls.map GLine.entry = items.map e)
+        .ok (e item, { r with tok := after 0 false (10 :: rest), lastName := some (nOf item) }))
+    (hls : ls.map GLine.entry = items.filterMap e)
     (hok : LinesOK co zo r.relativize r.gfix r.lastName (some ttl) ls) (hu : InheritLines ttl ls)
     (hlast : lastN r.lastName ls = lastNameAfter nOf r.lastName items) :
     readLoop (f + 2) { r with tok := after 0 false (s2l "$GENERATE" ++ H) } z =
